@@ -102,8 +102,11 @@ def run(P: Program, R: Report, tier: str) -> None:
         for lp in [x for x in ast.walk(m.node) if isinstance(x, (ast.For, ast.While))]:
             pass
         writes = [c for c in ast.walk(m.node) if isinstance(c, ast.Call) and call_name(c) in ("_set_node_attr", "_set_nodes_attr") and len(c.args) >= 2]
+        from ..resolve import Resolver as _Rs62
+
+        rs62 = _Rs62(P, m)
         for w in writes:
-            fam = next((f for f in fams if norm(w.args[1]) == f"self.{f['key']}"), None)
+            fam = next((f for f in fams if rs62.text(w.args[1]) == f"self.{f['key']}"), None)  # `lineage_key = self.lineage_key` hoisted out of a loop is the same key
             if fam is None:
                 continue
             n += 1
